@@ -33,6 +33,26 @@ fn decode(body: Vec<u8>) -> String {
 fn main() {
     let a: Vec<String> = std::env::args().collect();
     let mode = a[1].as_str();
+    if mode == "sizes" {
+        use scylla_cql::frame::response::result::*;
+        use std::mem::size_of;
+        println!("ColumnType {} CowField {} ColumnSpec {} PkIdx {} String {} PayloadEntry {} MultimapEntry {} TableSpec {}",
+            size_of::<ColumnType<'static>>(), size_of::<(std::borrow::Cow<'static, str>, ColumnType<'static>)>(),
+            size_of::<ColumnSpec<'static>>(), size_of::<PartitionKeyIndex>(), size_of::<String>(),
+            size_of::<(String, Bytes)>(), size_of::<(String, Vec<String>)>(), size_of::<TableSpec<'static>>());
+        return;
+    }
+    if mode == "lz4" {
+        let n: u32 = a[2].parse().unwrap();
+        let mut body = n.to_be_bytes().to_vec();
+        body.extend_from_slice(&[0x10, 0x41, 0, 0, 0]);
+        let t0 = std::time::Instant::now();
+        let r = scylla_cql::frame::parse_response_body_extensions(1, Some(scylla_cql::frame::Compression::Lz4), Bytes::from(body));
+        println!("lz4 claimed={} -> {:?} in {:?}", n, r.map(|x| x.body.len()).map_err(|e| e.to_string()), t0.elapsed());
+        let st = std::fs::read_to_string("/proc/self/status").unwrap();
+        for l in st.lines() { if l.starts_with("VmPeak") || l.starts_with("VmHWM") { println!("{l}"); } }
+        return;
+    }
     let n: usize = a.get(2).map(|s| s.parse().unwrap()).unwrap_or(10);
     let ty = match mode {
         "open" => "ListType(".to_string(),
